@@ -74,10 +74,12 @@ def ref_meta(n, info, memo):
 
 
 def ref_meta_expansion(n, info, memo):
-    """The same traversal under expansion_depthing=True, for grammars whose fields are all class-typed:
-    every step from a field's declared abstract type down the class hierarchy to the production that
-    was actually used is one more expansion (counted as a node and as a level); a field-less
-    production counts as one level."""
+    """The same traversal under expansion_depthing=True, for grammars whose fields are class-typed or
+    (nested) lists of classes: every step from a field's declared abstract type down the class
+    hierarchy to the production that was actually used is one more expansion (counted as a node and
+    as a level); every list - as a field or nested in another list - is one node and one level; a
+    field-less production counts as one level. (Elements of a list are taken as they are: the
+    library counts no hops for them.)"""
     if id(n) in memo:
         return memo[id(n)]
     name = type(n).__name__
@@ -86,24 +88,54 @@ def ref_meta_expansion(n, info, memo):
     levels = []
     types = {name: [id(n)]}
     has_fieldless = not fs
+    has_list = False
+
+    def merge(t_):
+        for tn, ids in t_.items():
+            types.setdefault(tn, []).extend(ids)
+
+    def of_list(li):
+        """(nodes, levels, weighted, any production inside) of a list value."""
+        c, d, w = 0, 0, 0
+        for e in li:
+            if isinstance(e, list):
+                c2, d2, w2 = of_list(e)
+                c += 1 + c2
+                d = max(d, d2 + 1)
+                w += w2
+            else:
+                c_, d_, w_, t_, _, hf, _ = ref_meta_expansion(e, info, memo)
+                c += c_
+                d = max(d, d_ + 1)
+                w += w_
+                merge(t_)
+        return c, d, w
+
     for fn, ft in fs:
         k = getattr(n, fn)
+        if isinstance(k, list):
+            has_list = True
+            c2, d2, w2 = of_list(k)
+            cnt += 1 + c2
+            wt += w2
+            levels.append(d2 + 1)
+            continue
         kname = type(k).__name__
         hops, c = 0, kname
         if ft[0] == "ref" and info.is_abstract(ft[1]):
             while c != ft[1]:
                 c = info.parent[c]
                 hops += 1
-        c_, d_, w_, t_, _, hf, _ = ref_meta_expansion(k, info, memo)
+        c_, d_, w_, t_, hl, hf, _ = ref_meta_expansion(k, info, memo)
         cnt += hops + c_
         wt += w_
         levels.append(d_ + hops + 1)
         has_fieldless = has_fieldless or hf
-        for tn, ids in t_.items():
-            types.setdefault(tn, []).extend(ids)
+        has_list = has_list or hl
+        merge(t_)
     dist = max([1] + levels)
     wt += dist
-    memo[id(n)] = (cnt, dist, wt, types, False, has_fieldless, False)
+    memo[id(n)] = (cnt, dist, wt, types, has_list, has_fieldless, False)
     return memo[id(n)]
 
 
@@ -232,8 +264,8 @@ class MetadataExpansion(Metadata):
 
     name = "node_metadata_expansion_mode"
     ref = staticmethod(ref_meta_expansion)
-    flags = Flags(class_fields_only=True, expansion=True, lists=False, bare_lists=False, tuples=False, unions=False, refined=False, dependent=False, user_mh=False,
-                  max_abstract=5, max_concrete=7, nested_abstract=True, self_refs=False, plain_classes=True)
+    flags = Flags(class_fields_only=True, expansion=True, lists=True, bare_lists=True, nested_generics=True, tuples=False, unions=False, refined=False, dependent=False, user_mh=False,
+                  max_abstract=5, max_concrete=7, nested_abstract=True, self_refs=False, plain_classes=True, max_list_size=2)
     reps = ("tree", "ge", "dsge")
 
     def budget(self, tier):
